@@ -12,6 +12,7 @@ EXPLANATION = (
     "calendar queue's ordering code. "
     '(R1 also covers every other time-ordered list walk of the queue; R3 also requires a single buffer per kind and no push_front.) '
     '(R2 also: the zero-delay container is filled by add alone; R5, shared with C01.R2) every insertion and look-up derives the bucket from the timestamp by the same expression. '
+    '(R6, shared with C08.R7) a send for the current instant is walked inline, only a later one becomes an event. '
     "Decides these necessary conditions only; not the end-to-end tie order of histories.")
 ASSUMPTIONS = ["VecDeque::push_back/pop_front are opposite ends; Vec::drain(..) yields in index order"]
 USES_B = True
